@@ -79,7 +79,7 @@ CHECKS = {
     "C19": dict(
         cat="exploration", ref="4 C19",
         technique="property-based testing + exhaustive small scope against brute-force complete extensions",
-        text="Generated frameworks (<=10/13 arguments, compact ids incl. duplicate attack lines) and all digraphs on <=3/4 arguments: classes of the reduction partition the arguments, the two mappings are inverse at class level, every class is inside or outside each complete extension, grounded and defeated sets each within one class, no panic. One case in 300 is a union of many small components (20-200 arguments) judged exactly by per-component signatures. The fixed case list contains one grounded-decided framework of 2^20+12 arguments; fans with a line repeated 2^16+ times are generated.",
+        text="Generated frameworks (<=10/13 arguments, compact ids incl. duplicate attack lines) and all digraphs on <=3/4 arguments: classes of the reduction partition the arguments, the two mappings are inverse at class level, every class is inside or outside each complete extension, grounded and defeated sets each within one class, no panic. One case in 300 is a union of many small components (20-200 arguments) judged exactly by per-component signatures. The fixed case list contains one grounded-decided framework of 2^20+12 arguments; fans with a line repeated 2^16+ times are generated. 4000 frameworks of 30-300 arguments per quick run (sparse random, long even cycles with tails, layered) have their merges decided pair by pair by SAT on an independent encoding of the complete semantics.",
         note="trusted: oracle.rs complete extensions"),
     "C05": dict(
         cat="exploration", ref="4 C05",
